@@ -14,6 +14,7 @@ ASSUMPTIONS = [
     "xarray/numpy layout semantics (broadcasting, isel, sum(skipna), integrate, argmax) are validated by execution over the "
     "layouts (), (time), (time, latitude), not proved",
     "'covers the circle' is read as: the grid is congruent modulo 360 to an increasing grid whose cyclic gaps are all in (0,180)",
+    "the element-wise translator harness/translate_pointwise.py (Python AST -> Coq text over R, fail-closed) is trusted to map each accepted construct to its meaning: tools/math.py wrapped_difference -> Generated/MathSrc.v",
 ]
 TRUSTED = ["Lib/Atan2.v atan2 is built from atan by quadrant; numpy.arctan2 is tied to it by correspondence only"]
 
